@@ -39,6 +39,11 @@ HOWS = ["call", "value", "yielded", "yielded_value"]
 MONITORS = ("refeq", "restore")
 
 
+def _shrunk(prog, how, pol, cs, oracle):
+    small, runs = tl.shrink_for(prog, how, pol, cs, MONITORS, oracle)
+    return {"shrunk_program": small, "shrink_runs": runs}
+
+
 def plan(tier, seed, build, scale):
     n = int((2400 if tier == "quick" else 40000) * scale)
     per = max(1, n // (8 if tier == "quick" else 32))
@@ -94,7 +99,7 @@ def run_unit(unit, progress):
                             {
                                 "oracle": v["oracle"],
                                 "mechanism": v["oracle"],
-                                "detail": {"how": how, "prio": pol, "violation": v["detail"], "program": prog},
+                                "detail": dict({"how": how, "prio": pol, "violation": v["detail"], "program": prog}, **_shrunk(prog, how, pol, cs, v["oracle"])),
                                 "case": {"cases": [i, i + 1]},
                             }
                         )
